@@ -666,6 +666,43 @@ def row_time(c: Ctx) -> None:
         except Exception as exc:  # noqa: BLE001
             c.bad("reader-raises:tz_aware_from_i64", f"tz_aware_from_i64({ms}) raised {exc!r}")
         c.distinct += 1
+    if c.i == 5 % c.n:
+        # values that compare (and hash) equal and are different members all the same, one after the other through the same function: the two
+        # passes through the repeated hour at the end of daylight-saving time (PEP 495: equal within one zone, an hour apart as instants),
+        # and the two zeros of the doubles
+        try:
+            from zoneinfo import ZoneInfo
+
+            zones = [ZoneInfo(z) for z in ("Europe/Berlin", "America/New_York", "Australia/Lord_Howe")]
+        except Exception:  # noqa: BLE001
+            zones = []
+        for z in zones:
+            for year in (2021, 2023, 2031):
+                # find the repeated wall-clock time of that year in this zone
+                probe = datetime.datetime(year, 6 if z.key != "Australia/Lord_Howe" else 1, 1, tzinfo=UTC)
+                for _ in range(370 * 24):
+                    nxt = probe + datetime.timedelta(hours=1)
+                    if nxt.astimezone(z).utcoffset() < probe.astimezone(z).utcoffset():
+                        break
+                    probe = nxt
+                else:
+                    continue
+                wall = nxt.astimezone(z).replace(tzinfo=None, microsecond=123000)
+                first, second = wall.replace(tzinfo=z, fold=0), wall.replace(tzinfo=z, fold=1)
+                if first.utcoffset() == second.utcoffset():
+                    continue
+                for order in ((first, second, first), (second, first, second)):
+                    for w, r in ((W.write_datetime_i64, R.read_datetime_i64), (W.write_nullable_datetime_i64, R.read_nullable_datetime_i64)):
+                        for twin in order:
+                            ms = (twin.astimezone(UTC) - EPOCH) // MS
+                            c.expect_encoding(w, r, twin, ms.to_bytes(8, "big", signed=True), read_back=EPOCH + ms * MS)
+                            c.res.count("equal_but_different_members_in_sequence")
+        import struct as _struct
+
+        for order in ((0.0, -0.0, 0.0), (-0.0, 0.0, -0.0)):
+            for x in order:
+                c.expect_encoding(W.write_float64, R.read_float64, x, _struct.pack(">d", x))
+                c.res.count("equal_but_different_members_in_sequence")
     if c.i == 7 % c.n:
         c.expect_encoding(W.write_nullable_datetime_i64, R.read_nullable_datetime_i64, None, (-1).to_bytes(8, "big", signed=True))
         for r in (R.read_datetime_i64, R.read_nullable_datetime_i64):
